@@ -14,7 +14,8 @@
 (*                             queued (restartQueued), consec (consecutiveRestarts)                        *)
 (*   `go mc.Shutdown()`        shgo : ITS OWN process (window between "seen terminal" and "shut")           *)
 (*   `go mc.onShutdown(chid)`  delgo (delete from Monitor.channels)                                        *)
-(* shutdownLk "first shutdown wins": shut (cancel == nil, ctx cancelled), subd (still subscribed).         *)
+(* shutdownLk "first shutdown wins": shut (cancel == nil, ctx cancelled), unsubgo (ctx cancelled, unsub()    *)
+(* not yet called: goroutines woken by ctx.Done() run in this window), subd (still subscribed).             *)
 (*                                                                                                        *)
 (* Time: `now` advances by Tick only when no process can take a step (maximal progress: goroutines are     *)
 (* infinitely fast compared with a tick - exactly the semantics of testing/synctest, where the fake clock  *)
@@ -49,14 +50,14 @@ CONSTANTS EnSet,      \* subset of BOOLEAN : monitoring enabled (cfg # nil)
           CexBy       \* which closer ForgetsStrictDump looks for: "accept" | "complete" | "restarts" | "any"
 
 VARIABLES cfg, now, nev, nfail, finSent,
-          shut, subd, listed, delgo, shgo,
+          shut, subd, listed, unsubgo, delgo, shgo,
           atimer, apc, cgo, cw, cclose, cdoclose,
           dbgo, dbArmed, dbDl,
           rcalls, inFlight, queued, consec, lp,
           h
 
-mvars == <<shut, subd, listed, delgo, shgo, atimer, apc, cgo, cw, cclose, cdoclose, dbgo, dbArmed, dbDl, rcalls, inFlight, queued, consec, lp>>
-vars  == <<cfg, now, nev, nfail, finSent, shut, subd, listed, delgo, shgo, atimer, apc, cgo, cw, cclose, cdoclose,
+mvars == <<shut, subd, listed, unsubgo, delgo, shgo, atimer, apc, cgo, cw, cclose, cdoclose, dbgo, dbArmed, dbDl, rcalls, inFlight, queued, consec, lp>>
+vars  == <<cfg, now, nev, nfail, finSent, shut, subd, listed, unsubgo, delgo, shgo, atimer, apc, cgo, cw, cclose, cdoclose,
            dbgo, dbArmed, dbDl, rcalls, inFlight, queued, consec, lp, h>>
 
 Slots     == {1, 2}          \* a second loop slot exists only so that OneAtATime is a statement, not a tautology
@@ -78,7 +79,7 @@ H0 == [closes |-> 0, closeBy |-> "", closeAt |-> -1, seen |-> FALSE, seenAt |-> 
 InitWith(c) ==
   /\ cfg = c
   /\ now = 0 /\ nev = 0 /\ nfail = 0 /\ finSent = FALSE
-  /\ shut = FALSE /\ subd = cfg.en /\ listed = cfg.en /\ delgo = 0 /\ shgo = 0
+  /\ shut = FALSE /\ subd = cfg.en /\ listed = cfg.en /\ unsubgo = 0 /\ delgo = 0 /\ shgo = 0
   /\ atimer = (IF cfg.en /\ cfg.acc > 0 THEN "armed" ELSE "off")
   /\ apc = (IF cfg.en /\ cfg.acc > 0 THEN "wait" ELSE "none")
   /\ cgo = 0 /\ cw = << >> /\ cclose = 0 /\ cdoclose = 0
@@ -91,14 +92,19 @@ Init == \E c \in CfgSpace : InitWith(c)
 
 (* ---- mc.Shutdown() and closeChannelAndShutdown ------------------------------------------------------ *)
 UnsubE == Entry("unsub", "", 0, "", "")
-(* effect of a Shutdown() call by `by` *)
+(* mc.Shutdown() by `by` (shutdownLk): the first one cancels the context (cancel = nil) and then - a separate step,
+   UnsubStep, because goroutines woken by ctx.Done() can run in between - unsubscribes and spawns onShutdown *)
 DoShutdown(by, hh) ==
   IF ~shut
-  THEN /\ shut' = TRUE
-       /\ subd' = (IF Bug = "noUnsub" THEN subd ELSE FALSE)
-       /\ delgo' = delgo + 1
-       /\ h' = [hh EXCEPT !.shutBy = by, !.shutAt = now, !.log = LogApp(@, UnsubE)]
-  ELSE /\ UNCHANGED <<shut, subd, delgo>> /\ h' = hh
+  THEN /\ shut' = TRUE /\ unsubgo' = 1
+       /\ h' = [hh EXCEPT !.shutBy = by, !.shutAt = now]
+  ELSE /\ UNCHANGED <<shut, unsubgo>> /\ h' = hh
+UnsubStep ==
+  /\ unsubgo = 1 /\ unsubgo' = 0
+  /\ subd' = (IF Bug = "noUnsub" THEN subd ELSE FALSE)
+  /\ delgo' = delgo + 1
+  /\ h' = [h EXCEPT !.log = LogApp(@, UnsubE)]
+  /\ UNCHANGED <<cfg, now, nev, nfail, finSent, shut, listed, shgo, atimer, apc, cgo, cw, cclose, cdoclose, dbgo, dbArmed, dbDl, rcalls, inFlight, queued, consec, lp>>
 (* closeChannelAndShutdown(err) is two steps: Shutdown() (shutdownLk), and - only for the first shutdown - the
    CloseDataTransferChannelWithError call, after the lock was released *)
 WinsShutdown == ~shut \/ Bug = "secondClose"
@@ -114,26 +120,27 @@ Deliver(c, st, hh) ==
   IF st \in FinStats
   THEN /\ shgo' = shgo + 1                                                   \* go mc.Shutdown()
        /\ h' = [hh EXCEPT !.seen = TRUE, !.seenAt = (IF hh.seen THEN @ ELSE now)]
-       /\ UNCHANGED <<shut, subd, listed, delgo, atimer, apc, cgo, cw, cclose, cdoclose, dbgo, dbArmed, dbDl, rcalls, inFlight, queued, consec, lp>>
+       /\ UNCHANGED <<shut, subd, listed, unsubgo, delgo, atimer, apc, cgo, cw, cclose, cdoclose, dbgo, dbArmed, dbDl, rcalls, inFlight, queued, consec, lp>>
   ELSE CASE c = "Accept" ->
               /\ atimer' = (IF atimer = "armed" /\ Bug # "noCancelAccept" THEN "stopped" ELSE atimer)   \* timer.Stop()
               /\ h' = [hh EXCEPT !.accAt = (IF @ = -1 THEN now ELSE @)]
-              /\ UNCHANGED <<shut, subd, listed, delgo, shgo, apc, cgo, cw, cclose, cdoclose, dbgo, dbArmed, dbDl, rcalls, inFlight, queued, consec, lp>>
+              /\ UNCHANGED <<shut, subd, listed, unsubgo, delgo, shgo, apc, cgo, cw, cclose, cdoclose, dbgo, dbArmed, dbDl, rcalls, inFlight, queued, consec, lp>>
          [] c \in ErrCodes ->
               /\ dbgo' = dbgo + 1 /\ h' = hh                                   \* go mc.restartChannelDebounced(err)
-              /\ UNCHANGED <<shut, subd, listed, delgo, shgo, atimer, apc, cgo, cw, cclose, cdoclose, dbArmed, dbDl, rcalls, inFlight, queued, consec, lp>>
+              /\ UNCHANGED <<shut, subd, listed, unsubgo, delgo, shgo, atimer, apc, cgo, cw, cclose, cdoclose, dbArmed, dbDl, rcalls, inFlight, queued, consec, lp>>
          [] c = "FinishTransfer" ->
               /\ (IF cfg.cmp > 0 THEN cgo' = cgo + 1 /\ h' = [hh EXCEPT !.cdl = @ \cup {now + cfg.cmp}]   \* go mc.watchForResponderComplete()
                   ELSE cgo' = cgo /\ h' = hh)
-              /\ UNCHANGED <<shut, subd, listed, delgo, shgo, atimer, apc, cw, cclose, cdoclose, dbgo, dbArmed, dbDl, rcalls, inFlight, queued, consec, lp>>
+              /\ UNCHANGED <<shut, subd, listed, unsubgo, delgo, shgo, atimer, apc, cw, cclose, cdoclose, dbgo, dbArmed, dbDl, rcalls, inFlight, queued, consec, lp>>
          [] c \in DataCodes ->
               /\ consec' = (IF Bug = "noReset" THEN consec ELSE 0)             \* resetConsecutiveRestarts (restartLk)
               /\ h' = [hh EXCEPT !.att = 0]
-              /\ UNCHANGED <<shut, subd, listed, delgo, shgo, atimer, apc, cgo, cw, cclose, cdoclose, dbgo, dbArmed, dbDl, rcalls, inFlight, queued, lp>>
+              /\ UNCHANGED <<shut, subd, listed, unsubgo, delgo, shgo, atimer, apc, cgo, cw, cclose, cdoclose, dbgo, dbArmed, dbDl, rcalls, inFlight, queued, lp>>
          [] OTHER -> h' = hh /\ UNCHANGED mvars
 
+EnvFree == ~(unsubgo = 1 /\ h.shutBy = "ext")     \* the environment's goroutine is not inside its own mc.Shutdown()
 EnvEvent(c, st) ==
-  /\ ~h.dumped /\ nev < MaxEvents /\ c \in Codes \ {"Shut"} /\ st \in Stats /\ (finSent => st \in FinStats)
+  /\ ~h.dumped /\ EnvFree /\ nev < MaxEvents /\ c \in Codes \ {"Shut"} /\ st \in Stats /\ (finSent => st \in FinStats)
   /\ (subd \/ Record)            \* an event nobody is subscribed to changes nothing: not explored, but recorded in histories
   /\ Offered(nev)
   /\ nev' = nev + 1 /\ finSent' = (finSent \/ st \in FinStats)
@@ -143,59 +150,59 @@ EnvEvent(c, st) ==
 
 (* the manager calls mc.Shutdown() itself when the request could not be sent *)
 EnvShut ==
-  /\ ~h.dumped /\ nev < MaxEvents /\ "Shut" \in Codes /\ cfg.en /\ Offered(nev)
+  /\ ~h.dumped /\ EnvFree /\ nev < MaxEvents /\ "Shut" \in Codes /\ cfg.en /\ Offered(nev)
   /\ nev' = nev + 1
   /\ DoShutdown("ext", [h EXCEPT !.log = LogApp(@, Entry("ev", "d", 0, "Shut", ""))])
-  /\ UNCHANGED <<cfg, now, nfail, finSent, listed, shgo, atimer, apc, cgo, cw, cclose, cdoclose, dbgo, dbArmed, dbDl, rcalls, inFlight, queued, consec, lp>>
+  /\ UNCHANGED <<cfg, now, nfail, finSent, subd, listed, delgo, shgo, atimer, apc, cgo, cw, cclose, cdoclose, dbgo, dbArmed, dbDl, rcalls, inFlight, queued, consec, lp>>
 
 (* ---- `go mc.Shutdown()` and `go mc.onShutdown(chid)` -------------------------------------------------- *)
 ShutdownG ==
   /\ shgo > 0 /\ shgo' = shgo - 1
   /\ DoShutdown("fin", h)
-  /\ UNCHANGED <<cfg, now, nev, nfail, finSent, listed, atimer, apc, cgo, cw, cclose, cdoclose, dbgo, dbArmed, dbDl, rcalls, inFlight, queued, consec, lp>>
+  /\ UNCHANGED <<cfg, now, nev, nfail, finSent, subd, listed, delgo, atimer, apc, cgo, cw, cclose, cdoclose, dbgo, dbArmed, dbDl, rcalls, inFlight, queued, consec, lp>>
 DeleteG ==
   /\ delgo > 0 /\ delgo' = delgo - 1 /\ listed' = FALSE
-  /\ UNCHANGED <<cfg, now, nev, nfail, finSent, shut, subd, shgo, atimer, apc, cgo, cw, cclose, cdoclose, dbgo, dbArmed, dbDl, rcalls, inFlight, queued, consec, lp, h>>
+  /\ UNCHANGED <<cfg, now, nev, nfail, finSent, shut, subd, unsubgo, shgo, atimer, apc, cgo, cw, cclose, cdoclose, dbgo, dbArmed, dbDl, rcalls, inFlight, queued, consec, lp, h>>
 
 (* ---- accept timer goroutine ---------------------------------------------------------------------------- *)
 AcceptCtx ==      \* case <-mc.ctx.Done()
   /\ apc = "wait" /\ shut /\ apc' = "done"
-  /\ UNCHANGED <<cfg, now, nev, nfail, finSent, shut, subd, listed, delgo, shgo, atimer, cgo, cw, cclose, cdoclose, dbgo, dbArmed, dbDl, rcalls, inFlight, queued, consec, lp, h>>
+  /\ UNCHANGED <<cfg, now, nev, nfail, finSent, shut, subd, listed, unsubgo, delgo, shgo, atimer, cgo, cw, cclose, cdoclose, dbgo, dbArmed, dbDl, rcalls, inFlight, queued, consec, lp, h>>
 AcceptFire ==     \* case <-timer.C
   /\ apc = "wait" /\ atimer = "armed" /\ now >= cfg.acc /\ apc' = "close"
-  /\ UNCHANGED <<cfg, now, nev, nfail, finSent, shut, subd, listed, delgo, shgo, atimer, cgo, cw, cclose, cdoclose, dbgo, dbArmed, dbDl, rcalls, inFlight, queued, consec, lp, h>>
+  /\ UNCHANGED <<cfg, now, nev, nfail, finSent, shut, subd, listed, unsubgo, delgo, shgo, atimer, cgo, cw, cclose, cdoclose, dbgo, dbArmed, dbDl, rcalls, inFlight, queued, consec, lp, h>>
 AcceptClose ==    \* closeChannelAndShutdown: mc.Shutdown()
   /\ apc = "close" /\ apc' = (IF WinsShutdown THEN "doclose" ELSE "done") /\ DoShutdown("accept", h)
-  /\ UNCHANGED <<cfg, now, nev, nfail, finSent, listed, shgo, atimer, cgo, cw, cclose, cdoclose, dbgo, dbArmed, dbDl, rcalls, inFlight, queued, consec, lp>>
+  /\ UNCHANGED <<cfg, now, nev, nfail, finSent, subd, listed, delgo, shgo, atimer, cgo, cw, cclose, cdoclose, dbgo, dbArmed, dbDl, rcalls, inFlight, queued, consec, lp>>
 AcceptDoClose ==  \* ... then mgr.CloseDataTransferChannelWithError
-  /\ apc = "doclose" /\ apc' = "done" /\ CloseCall("accept")
-  /\ UNCHANGED <<cfg, now, nev, nfail, finSent, shut, subd, listed, delgo, shgo, atimer, cgo, cw, cclose, cdoclose, dbgo, dbArmed, dbDl, rcalls, inFlight, queued, consec, lp>>
+  /\ apc = "doclose" /\ unsubgo = 0 /\ apc' = "done" /\ CloseCall("accept")
+  /\ UNCHANGED <<cfg, now, nev, nfail, finSent, shut, subd, listed, unsubgo, delgo, shgo, atimer, cgo, cw, cclose, cdoclose, dbgo, dbArmed, dbDl, rcalls, inFlight, queued, consec, lp>>
 
 (* ---- complete timer goroutines ------------------------------------------------------------------------- *)
 RemoveAt(s, i) == SubSeq(s, 1, i - 1) \o SubSeq(s, i + 1, Len(s))
 CompleteStart ==  \* the spawned goroutine creates its timer
   /\ cgo > 0 /\ cgo' = cgo - 1 /\ cw' = Append(cw, now + cfg.cmp)
-  /\ UNCHANGED <<cfg, now, nev, nfail, finSent, shut, subd, listed, delgo, shgo, atimer, apc, cclose, cdoclose, dbgo, dbArmed, dbDl, rcalls, inFlight, queued, consec, lp, h>>
+  /\ UNCHANGED <<cfg, now, nev, nfail, finSent, shut, subd, listed, unsubgo, delgo, shgo, atimer, apc, cclose, cdoclose, dbgo, dbArmed, dbDl, rcalls, inFlight, queued, consec, lp, h>>
 CompleteCtx(i) ==
   /\ i \in 1..Len(cw) /\ shut /\ cw' = RemoveAt(cw, i)
-  /\ UNCHANGED <<cfg, now, nev, nfail, finSent, shut, subd, listed, delgo, shgo, atimer, apc, cgo, cclose, cdoclose, dbgo, dbArmed, dbDl, rcalls, inFlight, queued, consec, lp, h>>
+  /\ UNCHANGED <<cfg, now, nev, nfail, finSent, shut, subd, listed, unsubgo, delgo, shgo, atimer, apc, cgo, cclose, cdoclose, dbgo, dbArmed, dbDl, rcalls, inFlight, queued, consec, lp, h>>
 CompleteFire(i) ==
   /\ i \in 1..Len(cw) /\ now >= cw[i] /\ cw' = RemoveAt(cw, i) /\ cclose' = cclose + 1
-  /\ UNCHANGED <<cfg, now, nev, nfail, finSent, shut, subd, listed, delgo, shgo, atimer, apc, cgo, cdoclose, dbgo, dbArmed, dbDl, rcalls, inFlight, queued, consec, lp, h>>
+  /\ UNCHANGED <<cfg, now, nev, nfail, finSent, shut, subd, listed, unsubgo, delgo, shgo, atimer, apc, cgo, cdoclose, dbgo, dbArmed, dbDl, rcalls, inFlight, queued, consec, lp, h>>
 CompleteClose ==
   /\ cclose > 0 /\ cclose' = cclose - 1 /\ cdoclose' = (IF WinsShutdown THEN cdoclose + 1 ELSE cdoclose) /\ DoShutdown("complete", h)
-  /\ UNCHANGED <<cfg, now, nev, nfail, finSent, listed, shgo, atimer, apc, cgo, cw, dbgo, dbArmed, dbDl, rcalls, inFlight, queued, consec, lp>>
+  /\ UNCHANGED <<cfg, now, nev, nfail, finSent, subd, listed, delgo, shgo, atimer, apc, cgo, cw, dbgo, dbArmed, dbDl, rcalls, inFlight, queued, consec, lp>>
 CompleteDoClose ==
-  /\ cdoclose > 0 /\ cdoclose' = cdoclose - 1 /\ CloseCall("complete")
-  /\ UNCHANGED <<cfg, now, nev, nfail, finSent, shut, subd, listed, delgo, shgo, atimer, apc, cgo, cw, cclose, dbgo, dbArmed, dbDl, rcalls, inFlight, queued, consec, lp>>
+  /\ cdoclose > 0 /\ unsubgo = 0 /\ cdoclose' = cdoclose - 1 /\ CloseCall("complete")
+  /\ UNCHANGED <<cfg, now, nev, nfail, finSent, shut, subd, listed, unsubgo, delgo, shgo, atimer, apc, cgo, cw, cclose, dbgo, dbArmed, dbDl, rcalls, inFlight, queued, consec, lp>>
 
 (* ---- debounce (bep/debounce: Stop the pending AfterFunc, arm a new one) ---------------------------------- *)
 DebounceCall ==
   /\ dbgo > 0 /\ dbgo' = dbgo - 1 /\ dbArmed' = TRUE /\ dbDl' = now + cfg.deb
-  /\ UNCHANGED <<cfg, now, nev, nfail, finSent, shut, subd, listed, delgo, shgo, atimer, apc, cgo, cw, cclose, cdoclose, rcalls, inFlight, queued, consec, lp, h>>
+  /\ UNCHANGED <<cfg, now, nev, nfail, finSent, shut, subd, listed, unsubgo, delgo, shgo, atimer, apc, cgo, cw, cclose, cdoclose, rcalls, inFlight, queued, consec, lp, h>>
 DebounceFire ==
   /\ dbArmed /\ now >= dbDl /\ dbArmed' = FALSE /\ rcalls' = rcalls + 1
-  /\ UNCHANGED <<cfg, now, nev, nfail, finSent, shut, subd, listed, delgo, shgo, atimer, apc, cgo, cw, cclose, cdoclose, dbgo, dbDl, inFlight, queued, consec, lp, h>>
+  /\ UNCHANGED <<cfg, now, nev, nfail, finSent, shut, subd, listed, unsubgo, delgo, shgo, atimer, apc, cgo, cw, cclose, cdoclose, dbgo, dbDl, inFlight, queued, consec, lp, h>>
 
 (* ---- restartChannel ------------------------------------------------------------------------------------ *)
 FreeSlot == IF lp[1].pc = "idle" THEN 1 ELSE 2
@@ -207,7 +214,7 @@ REnter ==         \* restartLk: in flight -> queue, else become the loop
      ELSE /\ queued' = (IF Bug = "lostQueue" THEN queued ELSE TRUE)
           /\ h' = [h EXCEPT !.reqd = 1]
           /\ UNCHANGED <<inFlight, lp>>
-  /\ UNCHANGED <<cfg, now, nev, nfail, finSent, shut, subd, listed, delgo, shgo, atimer, apc, cgo, cw, cclose, cdoclose, dbgo, dbArmed, dbDl, consec>>
+  /\ UNCHANGED <<cfg, now, nev, nfail, finSent, shut, subd, listed, unsubgo, delgo, shgo, atimer, apc, cgo, cw, cclose, cdoclose, dbgo, dbArmed, dbDl, consec>>
 
 Exceeds(n) == IF Bug = "geBound" THEN n >= cfg.max ELSE n > cfg.max
 LCount(s) ==      \* doRestartChannel: restartLk { consecutiveRestarts++ } ; compare with the bound
@@ -216,7 +223,7 @@ LCount(s) ==      \* doRestartChannel: restartLk { consecutiveRestarts++ } ; com
   /\ IF Exceeds(consec + 1)
      THEN lp' = [lp EXCEPT ![s].pc = "close"] /\ h' = h
      ELSE lp' = [lp EXCEPT ![s].pc = "connect"] /\ h' = [h EXCEPT !.att = @ + 1]
-  /\ UNCHANGED <<cfg, now, nev, nfail, finSent, shut, subd, listed, delgo, shgo, atimer, apc, cgo, cw, cclose, cdoclose, dbgo, dbArmed, dbDl, rcalls, inFlight, queued>>
+  /\ UNCHANGED <<cfg, now, nev, nfail, finSent, shut, subd, listed, unsubgo, delgo, shgo, atimer, apc, cgo, cw, cclose, cdoclose, dbgo, dbArmed, dbDl, rcalls, inFlight, queued>>
 
 (* a call of the monitor API: entered with a dead ctx -> error at once; else outcome and latency are the environment's *)
 LCall(s, from, call, wpc) ==
@@ -229,7 +236,7 @@ LCall(s, from, call, wpc) ==
           /\ nfail' = (IF r = "fail" THEN nfail + 1 ELSE nfail)
           /\ lp' = [lp EXCEPT ![s] = [pc |-> wpc, ret |-> now + l, res |-> r]]
           /\ h' = [h EXCEPT !.log = LogApp(@, Entry(call, r, l, "", ""))]
-  /\ UNCHANGED <<cfg, now, nev, finSent, shut, subd, listed, delgo, shgo, atimer, apc, cgo, cw, cclose, cdoclose, dbgo, dbArmed, dbDl, rcalls, inFlight, queued, consec>>
+  /\ UNCHANGED <<cfg, now, nev, finSent, shut, subd, listed, unsubgo, delgo, shgo, atimer, apc, cgo, cw, cclose, cdoclose, dbgo, dbArmed, dbDl, rcalls, inFlight, queued, consec>>
 LConnect(s) == LCall(s, "connect", "connect", "connWait")
 LRestart(s) == LCall(s, "restart", "restart", "rsWait")
 
@@ -239,13 +246,13 @@ LRet(s, wpc, oknext) ==   \* the call returns: latency elapsed (scripted outcome
         /\ lp' = [lp EXCEPT ![s] = IF lp[s].res = "ok" THEN oknext ELSE [Idle EXCEPT !.pc = "count"]]
      \/ /\ shut
         /\ lp' = [lp EXCEPT ![s] = [Idle EXCEPT !.pc = "count"]]
-  /\ UNCHANGED <<cfg, now, nev, nfail, finSent, shut, subd, listed, delgo, shgo, atimer, apc, cgo, cw, cclose, cdoclose, dbgo, dbArmed, dbDl, rcalls, inFlight, queued, consec, h>>
+  /\ UNCHANGED <<cfg, now, nev, nfail, finSent, shut, subd, listed, unsubgo, delgo, shgo, atimer, apc, cgo, cw, cclose, cdoclose, dbgo, dbArmed, dbDl, rcalls, inFlight, queued, consec, h>>
 LConnRet(s) == LRet(s, "connWait", [Idle EXCEPT !.pc = "restart"])
 LRsRet(s)   == LRet(s, "rsWait", IF cfg.bof > 0 THEN [pc |-> "backoff", ret |-> now + cfg.bof, res |-> ""] ELSE [Idle EXCEPT !.pc = "loop"])
 LBackoff(s) ==
   /\ lp[s].pc = "backoff" /\ (now >= lp[s].ret \/ shut)
   /\ lp' = [lp EXCEPT ![s] = [Idle EXCEPT !.pc = "loop"]]
-  /\ UNCHANGED <<cfg, now, nev, nfail, finSent, shut, subd, listed, delgo, shgo, atimer, apc, cgo, cw, cclose, cdoclose, dbgo, dbArmed, dbDl, rcalls, inFlight, queued, consec, h>>
+  /\ UNCHANGED <<cfg, now, nev, nfail, finSent, shut, subd, listed, unsubgo, delgo, shgo, atimer, apc, cgo, cw, cclose, cdoclose, dbgo, dbArmed, dbDl, rcalls, inFlight, queued, consec, h>>
 LLoop(s) ==       \* restartLk { queued ? again : restartedAt = 0 }
   /\ lp[s].pc = "loop"
   /\ IF queued
@@ -253,20 +260,20 @@ LLoop(s) ==       \* restartLk { queued ? again : restartedAt = 0 }
           /\ h' = [h EXCEPT !.reqd = 0]
      ELSE /\ inFlight' = FALSE /\ lp' = [lp EXCEPT ![s] = Idle] /\ queued' = queued
           /\ h' = [h EXCEPT !.reqd = 0, !.log = LogApp(@, Entry("rcomplete", "", 0, "", ""))]
-  /\ UNCHANGED <<cfg, now, nev, nfail, finSent, shut, subd, listed, delgo, shgo, atimer, apc, cgo, cw, cclose, cdoclose, dbgo, dbArmed, dbDl, rcalls, consec>>
+  /\ UNCHANGED <<cfg, now, nev, nfail, finSent, shut, subd, listed, unsubgo, delgo, shgo, atimer, apc, cgo, cw, cclose, cdoclose, dbgo, dbArmed, dbDl, rcalls, consec>>
 LClose(s) ==      \* closeChannelAndShutdown(err) ; return (restartedAt stays set)
   /\ lp[s].pc = "close" /\ lp' = [lp EXCEPT ![s].pc = (IF WinsShutdown THEN "doclose" ELSE "dead")] /\ DoShutdown("restarts", h)
-  /\ UNCHANGED <<cfg, now, nev, nfail, finSent, listed, shgo, atimer, apc, cgo, cw, cclose, cdoclose, dbgo, dbArmed, dbDl, rcalls, inFlight, queued, consec>>
+  /\ UNCHANGED <<cfg, now, nev, nfail, finSent, subd, listed, delgo, shgo, atimer, apc, cgo, cw, cclose, cdoclose, dbgo, dbArmed, dbDl, rcalls, inFlight, queued, consec>>
 LDoClose(s) ==
-  /\ lp[s].pc = "doclose" /\ lp' = [lp EXCEPT ![s].pc = "dead"] /\ CloseCall("restarts")
-  /\ UNCHANGED <<cfg, now, nev, nfail, finSent, shut, subd, listed, delgo, shgo, atimer, apc, cgo, cw, cclose, cdoclose, dbgo, dbArmed, dbDl, rcalls, inFlight, queued, consec>>
+  /\ lp[s].pc = "doclose" /\ unsubgo = 0 /\ lp' = [lp EXCEPT ![s].pc = "dead"] /\ CloseCall("restarts")
+  /\ UNCHANGED <<cfg, now, nev, nfail, finSent, shut, subd, listed, unsubgo, delgo, shgo, atimer, apc, cgo, cw, cclose, cdoclose, dbgo, dbArmed, dbDl, rcalls, inFlight, queued, consec>>
 
 Looper(s) == LCount(s) \/ LConnect(s) \/ LConnRet(s) \/ LRestart(s) \/ LRsRet(s) \/ LBackoff(s) \/ LLoop(s) \/ LClose(s) \/ LDoClose(s)
 
 (* ---- time ---------------------------------------------------------------------------------------------- *)
 LooperReady(s) == \/ lp[s].pc \in {"count", "connect", "restart", "loop", "close", "doclose"}
                   \/ (lp[s].pc \in WaitPcs /\ (now >= lp[s].ret \/ shut))
-Busy == \/ shgo > 0 \/ delgo > 0 \/ cgo > 0 \/ cclose > 0 \/ cdoclose > 0 \/ dbgo > 0
+Busy == \/ shgo > 0 \/ unsubgo > 0 \/ delgo > 0 \/ cgo > 0 \/ cclose > 0 \/ cdoclose > 0 \/ dbgo > 0
         \/ (rcalls > 0 /\ (inFlight \/ lp[FreeSlot].pc = "idle"))
         \/ apc \in {"close", "doclose"} \/ (apc = "wait" /\ (shut \/ (atimer = "armed" /\ now >= cfg.acc)))
         \/ (\E i \in 1..Len(cw) : shut \/ now >= cw[i])
@@ -279,7 +286,7 @@ Deadlines == (IF apc = "wait" /\ atimer = "armed" THEN {cfg.acc} ELSE {})
              \cup {lp[s].ret : s \in {x \in Slots : lp[x].pc \in WaitPcs}}
 Tick ==
   /\ ~Busy /\ now < cfg.hz /\ now' = now + 1
-  /\ UNCHANGED <<cfg, nev, nfail, finSent, shut, subd, listed, delgo, shgo, atimer, apc, cgo, cw, cclose, cdoclose, dbgo, dbArmed, dbDl, rcalls, inFlight, queued, consec, lp, h>>
+  /\ UNCHANGED <<cfg, nev, nfail, finSent, shut, subd, listed, unsubgo, delgo, shgo, atimer, apc, cgo, cw, cclose, cdoclose, dbgo, dbArmed, dbDl, rcalls, inFlight, queued, consec, lp, h>>
 
 (* ---- dump of a simulated behaviour as a replay case ------------------------------------------------------ *)
 CaseOf == [cfg |-> cfg, log |-> h.log,
@@ -288,9 +295,9 @@ Dump ==
   /\ Record /\ ~h.dumped /\ now = cfg.hz /\ ~Busy
   /\ PrintT(<<"@@case", ToJson(CaseOf)>>)
   /\ h' = [h EXCEPT !.dumped = TRUE]
-  /\ UNCHANGED <<cfg, now, nev, nfail, finSent, shut, subd, listed, delgo, shgo, atimer, apc, cgo, cw, cclose, cdoclose, dbgo, dbArmed, dbDl, rcalls, inFlight, queued, consec, lp>>
+  /\ UNCHANGED <<cfg, now, nev, nfail, finSent, shut, subd, listed, unsubgo, delgo, shgo, atimer, apc, cgo, cw, cclose, cdoclose, dbgo, dbArmed, dbDl, rcalls, inFlight, queued, consec, lp>>
 
-Internal == \/ ShutdownG \/ DeleteG \/ AcceptCtx \/ AcceptFire \/ AcceptClose \/ AcceptDoClose
+Internal == \/ ShutdownG \/ UnsubStep \/ DeleteG \/ AcceptCtx \/ AcceptFire \/ AcceptClose \/ AcceptDoClose
             \/ CompleteStart \/ (\E i \in 1..Len(cw) : CompleteCtx(i) \/ CompleteFire(i)) \/ CompleteClose \/ CompleteDoClose
             \/ DebounceCall \/ DebounceFire \/ REnter
             \/ (\E s \in Slots : Looper(s))
@@ -342,7 +349,7 @@ ForgetsStep == [][h'.closes > h.closes => (shut /\ h.shutBy = h'.closeBy /\ h.sh
 ForgetsStrict == [][h.seen => h'.closes = h.closes]_vars
 ForgetsStrictInv  == ~h.cas
 ForgetsStrictDump == (h.cas /\ (CexBy = "any" \/ h.closeBy = CexBy)) => (PrintT(<<"@@cex", ToJson(CaseOf)>>) /\ FALSE)
-Disabled == ~cfg.en => (/\ h.log = << >> /\ h.closes = 0 /\ ~subd /\ ~listed /\ ~shut /\ shgo = 0 /\ delgo = 0
+Disabled == ~cfg.en => (/\ h.log = << >> /\ h.closes = 0 /\ ~subd /\ ~listed /\ ~shut /\ shgo = 0 /\ unsubgo = 0 /\ delgo = 0
                         /\ cgo = 0 /\ cclose = 0 /\ cdoclose = 0 /\ dbgo = 0 /\ rcalls = 0 /\ ~dbArmed /\ apc = "none" /\ \A s \in Slots : lp[s].pc = "idle")
 
 (* liveness (bounded time: a wait that ends beyond the horizon excuses) *)
